@@ -1,20 +1,23 @@
 #!/bin/bash
-# usage: tools/seedmatrix.sh  -> prints, for every seeded change, which obligations of which packs report it
-# (the change is applied to /repo, all packs are evaluated in one process, and it is undone straight afterwards).
+# usage: tools/seedmatrix.sh  -> prints, for every seeded change, which obligations of which packs report it.
+# Each change is applied to its own scratch worktree of /repo HEAD (removed afterwards); /repo itself is not touched.
 set -u
 cd /verif
 ./build.sh || exit 2
-if [ -n "$(git -C /repo status --porcelain)" ]; then echo "/repo is not clean"; exit 2; fi
-trap 'git -C /repo checkout -- . ; git -C /repo clean -fdq' EXIT
-for d in seeded/*/; do
-  id=$(basename $d)
+export GOFLAGS=-mod=mod GOPROXY=off GOSUMDB=off GOTOOLCHAIN=local CGO_ENABLED=0; unset GOWORK
+one() {
+  d=$1; id=$(basename $d)
   prop=$(python3 -c "import json;print(json.load(open('$d/meta.json'))['property'])")
-  git -C /repo apply "/verif/${d}patch.diff" || { echo "$id: patch does not apply"; continue; }
-  tmp=$(mktemp -d /tmp/seedm.XXXXXX)
-  out=$(GOFLAGS=-mod=mod GOPROXY=off GOSUMDB=off GOTOOLCHAIN=local bin/pandoravet -repo /repo -verif /verif -evidence-dir $tmp/ev -out-dir $tmp/out -prop all 2>&1)
+  WT=$(mktemp -d /tmp/seedm-XXXXXX); rmdir $WT
+  git -C /repo worktree add --detach $WT HEAD >/dev/null 2>&1 || { echo "$id: cannot create worktree"; return; }
+  if ! ( cd $WT && { git apply "/verif/${d}patch.diff" 2>/dev/null || git apply -3 "/verif/${d}patch.diff" >/dev/null 2>&1; } ); then
+    echo "$id | property $prop | patch does not apply"; git -C /repo worktree remove --force $WT >/dev/null 2>&1; return
+  fi
+  out=$(bin/pandoravet -repo $WT -verif /verif -evidence-dir $WT.ev -out-dir $WT.out -prop all 2>&1)
   hits=$(echo "$out" | grep -E '^(VIOLATED|UNDECIDED)' | awk '{print $2}' | sort -u | tr '\n' ' ')
   own=no; echo "$hits" | grep -q "O${prop#C0}\.\|O${prop#C}\." && own=yes
   echo "$id | property $prop | reported by: ${hits:-NOTHING} | own pack: $own"
-  rm -rf $tmp
-  git -C /repo checkout -- . ; git -C /repo clean -fdq
-done
+  git -C /repo worktree remove --force $WT >/dev/null 2>&1; rm -rf $WT.ev $WT.out
+}
+export -f one
+ls -d seeded/*/ | xargs -P 4 -I{} bash -c 'one {}' | sort
